@@ -80,6 +80,31 @@ def cases(rng, tier):
         out.append(mk(P, evs, nbw))
     for P, evs in corpus():
         out.append(mk(P, evs, 2))
+    if tier == 'thorough':
+        # EXHAUSTIVE sub-family: a fixed graph  x, w leaves; a = x*w; b = a + x; c = a*b (diamond with fan-out); every history of
+        # length <= 4 over {backward from a / b / c / x, retain_grad(a), retain_grad(b), zero x, enter / exit retain_grads}
+        import itertools
+        def graph():
+            P = gen_dag.Prog()
+            x = P.add_leaf((2,), [1.0, -2.0], True); w = P.add_leaf((2,), [0.5, 3.0], True)
+            a = P.add_op('mul', [x, w], [], [(2,)])[0]; b = P.add_op('add', [a, x], [], [(2,)])[0]; c_ = P.add_op('mul', [a, b], [], [(2,)])[0]
+            return P, x, w, a, b, c_
+        P0, x, w, a, b, c_ = graph()
+        alphabet = [('bw', a, [1.0, 2.0]), ('bw', b, [-1.0, 0.5]), ('bw', c_, [2.0, 1.0]), ('bw', x, [1.0, 1.0]), ('retain', a), ('retain', b), ('zero', x), ('ctx', None)]
+        for n in range(1, 5):
+            for word in itertools.product(range(len(alphabet)), repeat=n):
+                if not any(alphabet[k][0] == 'bw' for k in word): continue
+                P, *_ = graph()
+                evs, in_ctx = [('op', 2), ('op', 3), ('op', 4)], False
+                for k in word:
+                    e = alphabet[k]
+                    if e[0] == 'ctx':
+                        evs.append(('ctx', 'exit' if in_ctx else 'enter')); in_ctx = not in_ctx
+                    else:
+                        evs.append(e)
+                if in_ctx: evs.append(('ctx', 'exit'))
+                cc = mk(P, evs, sum(1 for k in word if alphabet[k][0] == 'bw')); cc['exhaustive'] = True
+                out.append(cc)
     return out
 
 
@@ -118,6 +143,9 @@ def nontrivial(c):
 def distribution(cases):
     d = {}
     for c in cases:
+        if c.get('exhaustive'):
+            k = 'exhaustive: all histories of length <= 4 over 8 events on the diamond graph'
+            d[k] = d.get(k, 0) + 1
         for e in c['evs']:
             d[e[0]] = d.get(e[0], 0) + 1
     return d
